@@ -14,7 +14,12 @@ RulesB == [ip |-> [EVENT |-> << <<60, 2>>, <<1, 1>> >>]]
 RulesC == [global |-> [EVENT |-> << <<60, 2>> >>, REQ |-> << <<1, 1>> >>]]
           @@ ("2.2.2.2" :> [EVENT |-> << <<1, 2>> >>, REQ |-> << <<3600, 1>> >>]) @@ ("3.3.3.3" :> [REQ |-> << <<3600, -1>> >>])
 RulesD == [ip |-> [EVENT |-> << <<60, 1>>, <<1, 3>> >>], global |-> [REQ |-> << <<3600, 3>>, <<60, 2>>, <<1, 4>> >>]]
-RulesDef == IF Which = "A" THEN RulesA ELSE IF Which = "B" THEN RulesB ELSE IF Which = "C" THEN RulesC ELSE RulesD
+\* exemptions (n = -1) listed beside limiting rules of the same command, on a longer and on a shorter interval: only
+\* the rule that says -1 is switched off, the others of the list still bind
+RulesE == [ip |-> [EVENT |-> << <<3600, -1>>, <<1, 2>> >>], global |-> [REQ |-> << <<60, 2>>, <<1, -1>> >>]]
+          @@ ("3.3.3.3" :> [REQ |-> << <<60, -1>>, <<1, 1>> >>])
+RulesDef == IF Which = "A" THEN RulesA ELSE IF Which = "B" THEN RulesB ELSE IF Which = "C" THEN RulesC
+            ELSE IF Which = "D" THEN RulesD ELSE RulesE
 
 INSTANCE RateLimiter WITH Addrs <- {"1.1.1.1", "2.2.2.2", "3.3.3.3"}, Cmds <- {"EVENT", "REQ"}, Rules <- RulesDef,
                           Deltas <- {0, 1, 30, 61}
